@@ -41,4 +41,44 @@ let run_fixed fixed line =
       (String.concat ";" hd) (if sink_released s then 1 else 0)
   | _ -> failwith ("bad queue case: " ^ line)
 
-let run_case line = run_fixed true line
+(* sub-step schedules (harness mode QH): one model event per token *)
+let parse_event e =
+  match e.[0] with
+  | 'T' -> ETrySend | 'I' -> EIncSubmitted | 'W' -> EWDequeue | 'X' -> EWStep
+  | 'A' -> ESampleA | 'B' -> ESampleB | 'C' -> EClone | 'D' -> EDropH | 'P' -> EPillSend
+  | 'F' -> let arg = String.sub e 1 (String.length e - 1) in
+    EWFinish (if arg = "k" then SOk else if arg = "p" then SPanic
+              else SErr (nat_of_int (int_of_string (String.sub arg 1 (String.length arg - 1)))))
+  | _ -> failwith ("bad event " ^ e)
+
+let run_sched fixed line =
+  match tokens line with
+  | ["QH"; cap; handler; events] ->
+    let cap = if cap = "u" then None else Some (nat_of_int (int_of_string cap)) in
+    let evs = List.map parse_event (split_on ',' events) in
+    let rec go s evs acc nsamp =
+      match evs with
+      | [] -> Some (s, List.rev acc)
+      | ev :: rest ->
+        (match step fixed s ev with
+         | None -> None
+         | Some (s', r) ->
+           let txt = match ev, r with
+             | ETrySend, ROk -> "k" | ETrySend, RFull -> "f"
+             | ESampleB, _ ->
+               (match List.nth_opt s'.q_samples nsamp with
+                | Some (q, sub) -> Printf.sprintf "s%d.%d" (int_of_nat q) (int_of_nat sub)
+                | None -> "s?")
+             | _, _ -> "-" in
+           go s' rest (txt :: acc) (match ev with ESampleB -> nsamp + 1 | _ -> nsamp)) in
+    (match go (init_q cap (handler = "1")) evs [] 0 with
+     | None -> "invalid"
+     | Some (s, outs) ->
+       let dl = List.map (fun (id, o) -> Printf.sprintf "%d:%s" (int_of_nat id) (show_out o)) s.q_delivered in
+       Printf.sprintf "R:%s|F:%d.%d.%d|DL:%s" (String.concat "," outs)
+         (int_of_nat s.q_submitted) (int_of_nat s.q_drained) (int_of_nat s.q_panics) (String.concat ";" dl))
+  | _ -> failwith ("bad QH case: " ^ line)
+
+let run_case line =
+  if String.length line > 2 && String.sub line 0 2 = "QH" then run_sched true line
+  else run_fixed true line
